@@ -90,6 +90,16 @@ package discovery
 
 // ---- membership synchronisation (C07): what is handed to the continuation, and when -------------------------------------
 
+//@ // the list that is returned is only accepted if it equals the own view: the own (sorted, self-containing) view is what is
+//@ // compared with the announced ones
+//@ func (*Member).intersectedView
+//@   props C07
+//@   requires m.Logger != nil && tpv != nil && tpv.memberToView != nil && len(topicHex) >= 8
+//@   on-call fmt.Sprintf(f, a):
+//@     assert [own-view-compared] len(a) == 1 && wraps(a[0], myView)
+//@   at return:
+//@     assert [single-view] result != nil ==> len(views) == 1
+//@
 //@ func (*Member).Synchronize
 //@   props C07 C11
 //@   requires ctx != nil && f != nil && m.Logger != nil && m.Broadcast != nil && m.Send != nil && len(topicToSynchronizeOn) >= 4 && probeInterval > 0
